@@ -15,6 +15,8 @@ EXPLANATION = (
     "check_remaining); plus presence of the validity checks of RegionMetadata::from_bytes / "
     "HeaderInner::import_and_verify and the skip-on-error shape of Regions::fill. Round-trip equality is not decided.")
 
+_BYTES, _POS = "bytes", "pos"
+
 DECODERS = re.compile(
     r"^rawdb::region_metadata::RegionMetadata::from_bytes($|::)|"
     r"^vecdb::base::header::inner::HeaderInner::(from_bytes|import_and_verify)($|::)|"
@@ -178,6 +180,9 @@ def raw_undo_validates_all(ctx, chk, rid):
 
 def run(ctx, chk):
     O, P = ctx.O, ctx.P
+    global _BYTES, _POS
+    import props.anchors as _anch
+    _BYTES, _POS = _anch.cursor_fields(P)
     bodies = decoder_bodies(P, O)
     if len(bodies) < 40:
         raise AnchorMissing("expected >= 40 decoder bodies (incl. numeric/array impls and closures), found %d" % len(bodies))
@@ -192,7 +197,7 @@ def run(ctx, chk):
     # check_remaining itself: checked addition and comparison against the slice length
     D = ctx._decode
     ens = D.ensures("vecdb::base::change::cursor::ChangeCursor::<'a>::check_remaining")
-    want = (("add", ("f", 1, ("pos",)), ("l", 2)), ("len", (1, ("bytes",))))
+    want = (("add", ("f", 1, (_POS,)), ("l", 2)), ("len", (1, (_BYTES,))))
     chk.oblige("D2 check_remaining ensures pos + len <= bytes.len() on Ok (derived: %s)" % [
         (D.show(a), D.show(b)) for a, b in ens], want in ens, key="D2|check_remaining|ensures",
         msg="the cursor's bounds check must establish pos + n <= bytes.len() without overflow")
@@ -254,9 +259,9 @@ def run(ctx, chk):
         a_sites = O.sites(B, chkrem)
         inn = O.seen_before(B, a_sites)
         adv = [b for b in B.reachable() for st in B.blocks[b]["stmts"]
-               if st[0] == "assign" and any(isinstance(e, list) and e[0] == "f" and e[2] == "pos" for e in st[1]["p"])]
+               if st[0] == "assign" and any(isinstance(e, list) and e[0] == "f" and e[2] == _POS for e in st[1]["p"])]
         idx = [b for b, t in B.calls() if any(n.endswith("Index::index") or n.endswith("::get") or n.endswith("get_unchecked")
-                                              for n in names(t)) and "bytes" in str(O.slice_back(B, t["args"][0])["fields"])]
+                                              for n in names(t)) and _BYTES in str(O.slice_back(B, t["args"][0])["fields"])]
         bad = [b for b in adv + idx if not inn[b]]
         chk.oblige("D7 ChangeCursor::%s: check_remaining precedes every access to `bytes` and every advance of `pos` "
                    "[%d accesses, %d advances]" % (meth, len(idx), len(adv)), bool(a_sites) and not bad,
